@@ -76,6 +76,7 @@ type Gen struct {
 	inlineN     int
 	goStmts     []string
 	freshNames  map[string]bool
+	blockingOps []string
 }
 
 func NewGen(w *World, fnName string) *Gen {
@@ -331,6 +332,36 @@ func (g *Gen) tagOf(t types.Type) int {
 
 func (g *Gen) heapKeyFor(sort string) string { return "H_" + sortKey(sort) }
 
+// heapKeyT: the heap component holding cells of Go type t. Cells of different (underlying) pointer or
+// integer types can never alias in Go without unsafe, so they get separate components.
+func (g *Gen) heapKeyT(t types.Type) string {
+	s := g.sortOf(t)
+	switch s {
+	case SInt:
+		if b := basicOf(t); b != nil {
+			n := b.Name()
+			switch b.Kind() {
+			case types.Uint8:
+				n = "uint8"
+			case types.Int32:
+				n = "int32"
+			}
+			return "H_Int_" + n
+		}
+	case SRef:
+		n := clean(types.Unalias(t).Underlying().String())
+		if len(n) > 60 {
+			h := 0
+			for _, c := range n {
+				h = (h*31 + int(c)) & 0xffffff
+			}
+			n = fmt.Sprintf("%s_%x", n[len(n)-50:], h)
+		}
+		return "H_Ref_" + n
+	}
+	return "H_" + sortKey(s)
+}
+
 // heap returns the current array term for heap key (declaring the entry heap lazily).
 func (g *Gen) heap(st *State, key string, elemSort string) Term {
 	if t, ok := st.heaps[key]; ok {
@@ -361,7 +392,12 @@ func (g *Gen) heapWF(h, elemSort, base string, global bool) {
 	case SIface:
 		f = fmt.Sprintf("(forall ((a Ref)) (! (<= (rootOid (iref (select %s a))) %s) :pattern ((select %s a))))", h, base, h)
 	default:
-		return
+		if strings.HasPrefix(elemSort, "(Array ") && arrayElemSort(elemSort) == SRef {
+			ks := arrayKeySort(elemSort)
+			f = fmt.Sprintf("(forall ((a Ref) (k %s)) (! (<= (rootOid (select (select %s a) k)) %s) :pattern ((select (select %s a) k))))", ks, h, base, h)
+		} else {
+			return
+		}
 	}
 	if global {
 		g.sc.Decl("(assert " + f + ")")
@@ -377,13 +413,13 @@ func (g *Gen) setHeap(st *State, key string, t Term) {
 // loadLeaf / storeLeaf operate on a leaf cell (non-struct) of Go type t at address a.
 func (g *Gen) loadLeaf(st *State, a string, t types.Type) Term {
 	s := g.sortOf(t)
-	h := g.heap(st, g.heapKeyFor(s), s)
+	h := g.heap(st, g.heapKeyT(t), s)
 	return Term{sel(h.S, a), s}
 }
 
 func (g *Gen) storeLeaf(st *State, a string, t types.Type, v string) {
 	s := g.sortOf(t)
-	g.writeCell(st, g.heapKeyFor(s), s, a, v)
+	g.writeCell(st, g.heapKeyT(t), s, a, v)
 }
 
 // load reads a value of type t from the cell at address a (decomposing structs).
